@@ -14,8 +14,10 @@ theorem Dec.add_zero' (a : Dec) : Dec.add a Dec.zero = a := by apply Dec.ext'; s
 theorem Dec.eq_zero_of_isZero {a : Dec} (h : a.isZero = true) : a = Dec.zero := by
   apply Dec.ext'; simpa [Dec.isZero, Dec.zero] using h
 
+theorem elapsed_self (now : Nat) : elapsed now now = 0 := by simp [elapsed]
+
 theorem grossReward_same (now : Nat) (apr : Dec) (stake : Nat) : grossReward now now apr stake = Dec.zero := by
-  apply Dec.ext'; simp [grossReward, Dec.ofNat, Dec.mul, Dec.div, Dec.zero]
+  apply Dec.ext'; simp [grossReward, elapsed_self, Dec.ofNat, Dec.mul, Dec.div, Dec.zero]
 
 theorem calcRewards_same (now : Nat) (apr c : Dec) (stake : Nat) : calcRewards now now apr c stake = .ok Dec.zero := by
   unfold calcRewards netReward
@@ -24,7 +26,8 @@ theorem calcRewards_same (now : Nat) (apr c : Dec) (stake : Nat) : calcRewards n
   rw [h0]
   have h1 : ¬ Dec.zero < Dec.zero := by rw [Dec.lt_def]; exact Nat.lt_irrefl _
   have h2 : Dec.sub Dec.zero Dec.zero = Dec.zero := by apply Dec.ext'; simp [Dec.sub, Dec.zero]
-  simp [h1, h2]
+  have h3 : ¬ now / NS < now / NS := Nat.lt_irrefl _
+  simp [h1, h2, h3]
 
 theorem shareOf_zero (sh : Shares) (vi : ValInfo) : shareOfRewards sh vi Dec.zero = Dec.zero := by
   unfold shareOfRewards
